@@ -66,40 +66,37 @@ impl InkList {
         ink_list
     }
 
+    /// Total order on list entries: by value, then origin name, then item
+    /// name. An entry is unique per (origin, item), so two distinct entries
+    /// never compare equal and nothing that uses this order depends on the
+    /// iteration order of the underlying hash map.
+    pub(crate) fn cmp_items(
+        a: &(&InkListItem, &i32),
+        b: &(&InkListItem, &i32),
+    ) -> std::cmp::Ordering {
+        a.1.cmp(b.1)
+            .then_with(|| a.0.get_origin_name().cmp(&b.0.get_origin_name()))
+            .then_with(|| a.0.get_item_name().cmp(b.0.get_item_name()))
+    }
+
     fn get_ordered_items(&self) -> Vec<(&InkListItem, &i32)> {
         let mut ordered: Vec<_> = self.items.iter().collect();
-        ordered.sort_by(|a, b| {
-            if a.1 == b.1 {
-                a.0.get_origin_name().cmp(&b.0.get_origin_name())
-            } else {
-                a.1.cmp(b.1)
-            }
-        });
+        ordered.sort_by(Self::cmp_items);
         ordered
     }
 
     pub fn get_max_item(&self) -> Option<(&InkListItem, i32)> {
-        let mut max: Option<(&InkListItem, i32)> = None;
-
-        for (k, v) in &self.items {
-            if max.is_none() || *v > max.as_ref().unwrap().1 {
-                max = Some((k, *v));
-            }
-        }
-
-        max
+        self.items
+            .iter()
+            .max_by(Self::cmp_items)
+            .map(|(k, v)| (k, *v))
     }
 
     pub fn get_min_item(&self) -> Option<(&InkListItem, i32)> {
-        let mut min: Option<(&InkListItem, i32)> = None;
-
-        for (k, v) in &self.items {
-            if min.is_none() || *v < min.as_ref().unwrap().1 {
-                min = Some((k, *v));
-            }
-        }
-
-        min
+        self.items
+            .iter()
+            .min_by(Self::cmp_items)
+            .map(|(k, v)| (k, *v))
     }
 
     pub fn set_initial_origin_names(&self, initial_origin_names: Vec<String>) {
